@@ -304,7 +304,7 @@ impl ProgFamily for WithDirectives {
 pub struct ModuleLessFiles;
 impl ProgFamily for ModuleLessFiles {
     fn name(&self) -> String {
-        "module-less-files/files with 0..2 file attributes and no module, alone and at every position among 1..2 ordinary files x 6 layouts".into()
+        "module-less-files/files with 0..2 file attributes and no module - or with a module and no definition -, alone and at every position among 1..2 ordinary files x 6 layouts".into()
     }
     fn len(&self) -> u64 {
         3 * 6 * 6 * 4
@@ -315,6 +315,7 @@ impl ProgFamily for ModuleLessFiles {
         let n_attrs = ((idx / 6) % 3) as usize;
         let arrangement = (idx / 18) % 6;
         let k = ((idx / 108) % 4) as usize;
+        #[allow(unused_mut)]
         let mut bare = MFile { file_attrs: vec![], module: None, defs: vec![], pre: vec![] };
         let forms = [MAttr::with("cs::namespace", vec![MArg::Str("N".into())]), MAttr::with("allow", vec![MArg::Ident("All".into())])];
         bare.file_attrs = forms[..n_attrs].to_vec();
@@ -323,6 +324,14 @@ impl ProgFamily for ModuleLessFiles {
             f.defs.push(construct([0usize, 7, 15, 22][(k + i) % 4], i, "Lib::"));
             f
         };
+        // (odd k: the files without a module are replaced by files that have a module - with 0..2 attributes - and NO
+        // definition: the one cell of the (module?, definitions) table that nothing else fills)
+        if k % 2 == 1 {
+            let mut m = MFile::module("Empty");
+            m.module.as_mut().unwrap().attrs = bare.file_attrs.iter().map(|_| MAttr::with("cs::ns", vec![MArg::Str("E".into())])).collect();
+            m.file_attrs = bare.file_attrs.clone();
+            bare = m;
+        }
         let program = match arrangement {
             0 => vec![bare, lib_file()],
             1 => vec![bare, ordinary(0), lib_file()],
